@@ -102,6 +102,55 @@ _OPERAND_OPCODES = frozenset(
 )
 
 
+def expand_replacement(
+    template: str, matched: str, position: int, subject: str, captures: List[Optional[str]]
+) -> str:
+    """Expand $$, $&, $`, $', $n and $nn in a replacement template (GetSubstitution)."""
+    out = []
+    i = 0
+    n = len(template)
+    group_count = len(captures)
+    while i < n:
+        ch = template[i]
+        if ch != "$" or i + 1 >= n:
+            out.append(ch)
+            i += 1
+            continue
+        nxt = template[i + 1]
+        if nxt == "$":
+            out.append("$")
+            i += 2
+        elif nxt == "&":
+            out.append(matched)
+            i += 2
+        elif nxt == "`":
+            out.append(subject[:position])
+            i += 2
+        elif nxt == "'":
+            out.append(subject[position + len(matched) :])
+            i += 2
+        elif "0" <= nxt <= "9":
+            # Two-digit reference if it names an existing group, else one digit
+            index = 0
+            width = 0
+            if i + 2 < n and "0" <= template[i + 2] <= "9":
+                two = int(template[i + 1 : i + 3])
+                if 1 <= two <= group_count:
+                    index, width = two, 3
+            if not width and 1 <= int(nxt) <= group_count:
+                index, width = int(nxt), 2
+            if width:
+                out.append(captures[index - 1] or "")
+                i += width
+            else:
+                out.append("$")
+                i += 1
+        else:
+            out.append("$")
+            i += 1
+    return "".join(out)
+
+
 @dataclass
 class ClosureCell:
     """A cell for closure variable - allows sharing between scopes."""
@@ -1873,6 +1922,7 @@ class VM:
 
     def _make_string_method(self, s: str, method: str) -> Any:
         """Create a bound string method."""
+        vm = self  # Reference for closures
 
         def charAt(*args):
             idx = to_integer(args[0]) if args else 0
@@ -1923,44 +1973,42 @@ class VM:
 
         def split(*args):
             sep = args[0] if args else UNDEFINED
-            limit = to_integer(args[1]) if len(args) > 1 else -1
+            # limit is converted with ToUint32; undefined means no limit
+            if len(args) > 1 and args[1] is not UNDEFINED:
+                limit = vm._to_uint32(args[1])
+            else:
+                limit = -1
 
             if sep is UNDEFINED:
                 parts = [s]
             elif isinstance(sep, JSRegExp):
-                # Split with regex using microjs.regex
+                # Split with regex: try a match at every position q (as a sticky
+                # regex would); an empty match at the end of the previous piece is
+                # skipped, captures are spliced into the result
                 try:
                     regex_internal = sep._internal
                     parts = []
-                    last_end = 0
-                    pos = 0
-                    capture_count = regex_internal._capture_count
-
-                    while pos <= len(s):
-                        # Create fresh regex VM for each search to avoid lastIndex issues
-                        vm_regex = regex_internal._create_vm()
-                        result = vm_regex.search(s, pos)
-                        if result is None:
-                            break
-
-                        # Add the part before this match
-                        parts.append(s[last_end : result.index])
-
-                        # Add captured groups (JS behavior) - capture_count includes group 0
-                        for i in range(1, capture_count):
-                            group_val = result[i]
-                            parts.append(
-                                group_val if group_val is not None else UNDEFINED
-                            )
-
-                        # Move past the match
-                        match_len = len(result[0]) if result[0] else 0
-                        last_end = result.index + match_len
-                        # Advance position (at least by 1 to avoid infinite loop on zero-width)
-                        pos = last_end if match_len > 0 else result.index + 1
-
-                    # Add remainder after last match
-                    parts.append(s[last_end:])
+                    if len(s) == 0:
+                        if regex_internal._create_vm().match(s, 0) is None:
+                            parts.append(s)
+                    else:
+                        p = 0
+                        q = 0
+                        while q < len(s):
+                            result = regex_internal._create_vm().match(s, q)
+                            end = q + len(result[0]) if result is not None else q
+                            if result is None or end == p:
+                                q += 1
+                                continue
+                            parts.append(s[p:q])
+                            p = end
+                            for i in range(1, len(result)):
+                                group_val = result[i]
+                                parts.append(
+                                    group_val if group_val is not None else UNDEFINED
+                                )
+                            q = p
+                        parts.append(s[p:])
                 except RegexTimeoutError:
                     raise TimeLimitError("Regex execution timeout")
             elif to_string(sep) == "":
@@ -2018,100 +2066,96 @@ class VM:
             pos = to_integer(args[1]) if len(args) > 1 else 0
             return search in s[pos:]
 
+        def regex_exec(regexp, string):
+            """One step of the lastIndex protocol on a script-level RegExp object."""
+            try:
+                return regexp._run_exec(string)
+            except RegexTimeoutError:
+                raise TimeLimitError("Regex execution timeout")
+
+        def regex_matches(regexp):
+            """All matches a global regex finds in s (one for a non-global regex)."""
+            is_global = "g" in regexp._flags
+            if is_global:
+                regexp.set("lastIndex", 0)
+            results = []
+            while True:
+                result = regex_exec(regexp, s)
+                if result is None:
+                    break
+                results.append(result)
+                if not is_global:
+                    break
+                if result[0] == "":
+                    # Step over an empty match
+                    regexp.set("lastIndex", to_integer(regexp.get("lastIndex")) + 1)
+            return results
+
         def replace(*args):
             pattern = args[0] if args else ""
-            replacement = to_string(args[1]) if len(args) > 1 else "undefined"
+            replace_value = args[1] if len(args) > 1 else UNDEFINED
+            replacer = replace_value if isinstance(replace_value, JSFunction) else None
+            replacement = "" if replacer else to_string(replace_value)
+
+            def substitute(matched, position, captures):
+                if replacer is not None:
+                    call_args = [matched]
+                    call_args.extend(UNDEFINED if c is None else c for c in captures)
+                    call_args.extend([position, s])
+                    return to_string(vm._call_callback(replacer, call_args, UNDEFINED))
+                return expand_replacement(replacement, matched, position, s, captures)
 
             if isinstance(pattern, JSRegExp):
-                # Replace with regex using microjs.regex
-                try:
-                    regex_internal = pattern._internal
-                    is_global = "g" in pattern._flags
-                    capture_count = regex_internal._capture_count
-
-                    # Handle special replacement patterns
-                    def handle_replacement(match_result):
-                        result = replacement
-                        # Handle $$ escape first (must be done before other $ patterns)
-                        result = result.replace("$$", "\x00DOLLAR\x00")
-                        # $& - the matched substring
-                        result = result.replace("$&", match_result[0] or "")
-                        # $n - nth captured group
-                        for i in range(1, 10):
-                            if i <= capture_count:
-                                result = result.replace(f"${i}", match_result[i] or "")
-                            else:
-                                result = result.replace(f"${i}", "")
-                        # Restore escaped dollars
-                        result = result.replace("\x00DOLLAR\x00", "$")
-                        return result
-
-                    result_parts = []
-                    last_end = 0
-                    pos = 0
-
-                    while pos <= len(s):
-                        # Create fresh regex VM for each search
-                        vm_regex = regex_internal._create_vm()
-                        match_result = vm_regex.search(s, pos)
-                        if match_result is None:
-                            break
-
-                        # Add the part before this match
-                        result_parts.append(s[last_end : match_result.index])
-                        # Add the replacement
-                        result_parts.append(handle_replacement(match_result))
-
-                        # Move past the match
-                        match_len = len(match_result[0]) if match_result[0] else 0
-                        last_end = match_result.index + match_len
-                        pos = last_end if match_len > 0 else match_result.index + 1
-
-                        if not is_global:
-                            break
-
-                    # Add remainder after last match
-                    result_parts.append(s[last_end:])
-                    return "".join(result_parts)
-                except RegexTimeoutError:
-                    raise TimeLimitError("Regex execution timeout")
+                result_parts = []
+                last_end = 0
+                for result in regex_matches(pattern):
+                    matched = result[0]
+                    captures = [result[i] for i in range(1, len(result))]
+                    if result.index >= last_end:
+                        result_parts.append(s[last_end : result.index])
+                        result_parts.append(substitute(matched, result.index, captures))
+                        last_end = result.index + len(matched)
+                result_parts.append(s[last_end:])
+                return "".join(result_parts)
             else:
                 # String replace - only replace first occurrence
                 search = to_string(pattern)
-                # Handle special replacement patterns
-                repl = replacement
-                if "$$" in repl:
-                    repl = repl.replace("$$", "\x00DOLLAR\x00")
-                if "$&" in repl:
-                    repl = repl.replace("$&", search)
-                repl = repl.replace("\x00DOLLAR\x00", "$")
-                # Find first occurrence and replace
                 idx = s.find(search)
                 if idx >= 0:
-                    return s[:idx] + repl + s[idx + len(search) :]
+                    return s[:idx] + substitute(search, idx, []) + s[idx + len(search) :]
                 return s
 
         def replaceAll(*args):
             pattern = args[0] if args else ""
-            replacement = to_string(args[1]) if len(args) > 1 else "undefined"
+            replace_value = args[1] if len(args) > 1 else UNDEFINED
 
             if isinstance(pattern, JSRegExp):
                 # replaceAll with regex requires global flag
                 if "g" not in pattern._flags:
                     raise JSTypeError("replaceAll called with a non-global RegExp")
-                return replace(pattern, replacement)
+                return replace(pattern, replace_value)
             else:
                 # String replaceAll - replace all occurrences
                 search = to_string(pattern)
-                # Handle special replacement patterns
-                if "$$" in replacement:
-                    # $$ -> $ (must be done before other replacements)
-                    replacement = replacement.replace("$$", "\x00DOLLAR\x00")
-                if "$&" in replacement:
-                    # $& -> the matched substring
-                    replacement = replacement.replace("$&", search)
-                replacement = replacement.replace("\x00DOLLAR\x00", "$")
-                return s.replace(search, replacement)
+                replacer = replace_value if isinstance(replace_value, JSFunction) else None
+                replacement = "" if replacer else to_string(replace_value)
+                result_parts = []
+                last_end = 0
+                idx = s.find(search)
+                while idx >= 0:
+                    result_parts.append(s[last_end:idx])
+                    if replacer is not None:
+                        result_parts.append(
+                            to_string(vm._call_callback(replacer, [search, idx, s], UNDEFINED))
+                        )
+                    else:
+                        result_parts.append(expand_replacement(replacement, search, idx, s, []))
+                    last_end = idx + len(search)
+                    idx = s.find(search, last_end if search else last_end + 1)
+                    if not search and last_end >= len(s):
+                        break
+                result_parts.append(s[last_end:])
+                return "".join(result_parts)
 
         def match(*args):
             pattern = args[0] if args else None
@@ -2126,8 +2170,18 @@ class VM:
             from .regex import RegExp as InternalRegExp
 
             if isinstance(pattern, JSRegExp):
-                regex_internal = pattern._internal
-                is_global = "g" in pattern._flags
+                # RegExp object: the lastIndex protocol applies (global, sticky)
+                if "g" not in pattern._flags:
+                    try:
+                        return pattern.exec(s)
+                    except RegexTimeoutError:
+                        raise TimeLimitError("Regex execution timeout")
+                matches = [result[0] for result in regex_matches(pattern)]
+                if not matches:
+                    return NULL
+                arr = JSArray()
+                arr._elements = matches
+                return arr
             else:
                 # Convert string to regex using microjs.regex
                 # Create a poll_callback if the VM has time limits
@@ -2194,7 +2248,12 @@ class VM:
             from .regex import RegExp as InternalRegExp
 
             if isinstance(pattern, JSRegExp):
-                regex_internal = pattern._internal
+                # Search from the start; lastIndex is restored afterwards
+                previous = pattern.get("lastIndex")
+                pattern.set("lastIndex", 0)
+                result = regex_exec(pattern, s)
+                pattern.set("lastIndex", previous)
+                return result.index if result else -1
             else:
                 # Convert string to regex using microjs.regex
                 poll_callback = None
